@@ -306,6 +306,9 @@ def make_run(world, c, combo, use_contracts, spec_builtins):
         for name, spec in combo.items():
             if type(spec).__name__ == 'SameAsT':
                 args[name] = args[spec.ref]
+        for name, spec in combo.items():
+            if type(spec).__name__ == 'DerivedT':
+                args[name] = spec.fn(I, args)
         fparams = {a.arg for a in ast.walk(f.node.args) if isinstance(a, ast.arg)}
         config['ghosts'] = {k: v for k, v in args.items() if k not in fparams}     # specification-only parameters
         memo = {}
@@ -348,7 +351,9 @@ def make_run(world, c, combo, use_contracts, spec_builtins):
                 for name in args:
                     if name in c.modifies:
                         continue
-                    fields = [m.split('.', 1)[1] for m in c.modifies if m.startswith(name + '.')]
+                    # (an argument that is the very object passed for another parameter shares its frame)
+                    fields = [m.split('.', 1)[1] for m in c.modifies
+                              if '.' in m and m.split('.', 1)[0] in args and args[m.split('.', 1)[0]] is args[name]]
                     if fields and isinstance(args[name], SObj) and isinstance(old[name], SObj):
                         # the listed fields may change, every other field of the object may not
                         a, b = old[name], args[name]
@@ -618,7 +623,8 @@ def _loop_frame_vcs(I, env, visible, before, modified, heap_mod, k, qn, node, sa
         ok, val = env.lookup(nm)
         if not ok:
             continue
-        fields = [m.split('.', 1)[1] for m in heap_mod if m.startswith(nm + '.')]
+        fields = [m.split('.', 1)[1] for m in heap_mod
+                  if env.lookup(m.split('.', 1)[0])[1] is val]        # the owner itself or an alias of it
         a, b = old_val, val
         if fields and isinstance(a, SObj) and isinstance(b, SObj):
             same = zand(set(a.fields) - set(fields) == set(b.fields) - set(fields),
